@@ -25,6 +25,12 @@ def gen(rng, quick):
             mins = rng.choice([1, 1, 2, 5]); maxs = mins + rng.choice([0, 3, 10, 30])
             thr = rng.choice([0.05, 0.02, 0.1])
             jobs.append("CRUN %s %s %s %d %g %d %d %g %d %d %g" % (p, sysn, env, q, step, mins, maxs, thr, rng.randint(1, 10 ** 6), 200000, 1.0 if quick else 2.0))
+        # the same with a directed control sampler that tries k controls per extension and keeps the one ending closest
+        for k in range(2 if quick else 24):
+            sysn = ["point", "car"][k % 2] + ":k%d" % rng.choice([2, 4, 8])
+            env = rng.choice(["gap", "thin", "boxes3", "circles5", "thin2"])
+            step = rng.choice([0.02, 0.05, 0.03]); mins = rng.choice([1, 1, 2]); maxs = mins + rng.choice([10, 30])
+            jobs.append("CRUN %s %s %s %d %g %d %d %g %d %d %g" % (p, sysn, env, rng.randint(0, 3), step, mins, maxs, rng.choice([0.05, 0.1]), rng.randint(1, 10 ** 6), 200000, 1.0 if quick else 2.0))
     return jobs
 
 
@@ -132,7 +138,7 @@ def main():
             ndiff += 1
             if first_diff is None: first_diff = (j, "admission rule '%s'" % v, "predicate '%s'" % msg)
     c.cov.update({"evaluations": len(script) + len(jobs), "traces_validated_against_impl": len(script) + stats["runs"], "distinct_nontrivial": stats["status_5"] + stats["status_6"],
-                  "rule": "(a) %d scripted propagateWhileValid / propagate calls (0..40 steps, 0..3 invalid states placed on or just after the trajectory), all three entry points compared exactly; (b) %d runs: 8 control planners (RRT with / without intermediate states, SST, EST, KPIECE1, PDST, SyclopRRT, SyclopEST) x systems {first-order point, car with heading wrap} x environments x queries x step size {.01-.1} x min/max duration {1-5, +0..30} x threshold x seeds; non-trivial = run reporting a solution (replayed step by step)" % (len(script), len(jobs)),
+                  "rule": "(a) %d scripted propagateWhileValid / propagate calls (0..40 steps, 0..3 invalid states placed on or just after the trajectory), all three entry points compared exactly; (b) %d runs: 8 control planners (RRT with / without intermediate states, SST, EST, KPIECE1, PDST, SyclopRRT, SyclopEST) x systems {first-order point, car with heading wrap; directed control sampler with k = 1 (default), 2, 4, 8 candidates} x environments x queries x step size {.01-.1} x min/max duration {1-5, +0..30} x threshold x seeds; non-trivial = run reporting a solution (replayed step by step)" % (len(script), len(jobs)),
                   "disagreements": ndiff, "predicate_failures": npred, "predicate_failures_by_kind": dict(failures), "failing_runs": failing[:40], "histogram": dict(stats)})
     c.cov["samples"] = jobs[:3]
     c.cov["trusted_base"] += ["extraction (ExtrOcamlBasic) + extract/control_driver.ml; harness/control_driver.cpp (its own copy of both propagators, replay tolerance 1e-9 in the state-space metric)"]
